@@ -385,8 +385,28 @@ func engineJSON(rc *RunCtx) *Outcome {
 	}
 	if w.Bool(20) {
 		var pretty bytes.Buffer
-		json.Indent(&pretty, doc, "", " ")
+		json.Indent(&pretty, doc, "", []string{" ", "\t"}[w.Choose(2)])
 		doc = pretty.Bytes()
+		if w.Bool(30) {
+			doc = bytes.ReplaceAll(doc, []byte("\n"), []byte("\r\n")) // a file written on another platform
+		}
+	}
+	if w.Bool(25) {
+		// insignificant whitespace around the document (all four JSON whitespace bytes)
+		ws := func() []byte {
+			b := make([]byte, 1+w.Choose(4))
+			for i := range b {
+				b[i] = " \n\t\r"[w.Choose(4)]
+			}
+			return b
+		}
+		if w.Bool(70) {
+			doc = append(ws(), doc...)
+		}
+		if w.Bool(50) {
+			doc = append(doc, ws()...)
+		}
+		o.probe("request_with_surrounding_whitespace")
 	}
 	o.Sample = map[string]interface{}{"request_kind": tag, "model": req.Name, "split": split, "bytes": len(doc), "request": string(head64(doc, 400))}
 
